@@ -1111,7 +1111,7 @@ def run(ctx):
                                                         it["kernel"] if it["kernel"] != "reject" else f"reject [{it['cls']}]: {klass(it['log'])[1]}")
         if it:
             items.append(it)
-    for gen, cnt in ((gen_dsl, ctx.n(160, 3000)), (gen_pkt, ctx.n(120, 1500)), (gen_c09, ctx.n(8, 60)), (gen_ext, ctx.n(160, 3000)),
+    for gen, cnt in ((gen_dsl, ctx.n(160, 3000)), (gen_pkt, ctx.n(120, 1500)), (gen_c09, ctx.n(40, 200)), (gen_ext, ctx.n(160, 3000)),
                      (gen_unowned, ctx.n(12, 60)), (gen_tvar, ctx.n(16, 200)), (gen_call, ctx.n(40, 400))):
         for _ in range(cnt):
             it = check_base(ctx, gen(rng), have_kernel)
